@@ -468,12 +468,23 @@ TLim ==
 (* to node identity; a statement the reference rejects must fail and a     *)
 (* failed statement must leave the graph as it was.                        *)
 (***************************************************************************)
+WellFormedCheck ==   \* C14 on the dump carried by the current event
+  LET w == DumpIllFormed(Rec[l].graph) IN
+  IF w = "" THEN TRUE ELSE Emit(Finding("C14", w, [query |-> Rec[l].query]))
+NoRef == "noref" \in DOMAIN Meta /\ Meta.noref
 TUpd ==
   /\ IsCase("upd")
-  /\ LET out == ApplyStmt(gr, Meta.ast)
+  /\ WellFormedCheck
+  /\ LET out == IF NoRef THEN [ok |-> TRUE, g |-> gr] ELSE ApplyStmt(gr, Meta.ast)
          obs == Rec[l].graph
          sizes(G) == <<Len(G.nodes), Len(LiveRelSeq(G))>>
-     IN IF out.ok THEN
+     IN IF NoRef THEN
+          (* outside the reference fragment: only "a failed statement has no effect" is judged *)
+          (IF IsRows THEN TRUE
+           ELSE LET d == GraphDiff(gr, obs) IN
+                IF d = "" THEN TRUE
+                ELSE Emit(Finding("C13", "failed-statement-changed-the-graph", [diff |-> d, err |-> Res.err, query |-> Rec[l].query])))
+        ELSE IF out.ok THEN
           (IF ~IsRows THEN Emit(Finding("C12", "statement-failed", [err |-> Res.err, query |-> Rec[l].query]))
            ELSE LET d == GraphDiff(out.g, obs) IN
                 IF d = "" THEN TRUE
@@ -494,12 +505,53 @@ TUpd ==
   /\ gr' = Rec[l].graph
   /\ l' = l + 1 /\ UNCHANGED <<ovf, ixpre, firstlab>>
 
+(***************************************************************************)
+(* txn (C13 / C24 / C14): an explicit transaction of the C API.  Statements *)
+(* that returned OK are applied in order, each on the state the earlier    *)
+(* ones left (a transaction sees its own writes); statements that failed   *)
+(* contribute nothing; after COMMIT the dump must equal the result, after  *)
+(* ROLLBACK the graph before the transaction.                              *)
+(***************************************************************************)
+TTxn ==
+  /\ IsCase("txn")
+  /\ WellFormedCheck
+  /\ LET stmts == Rec[l].stmts
+         sres == Rec[l].stmt_res
+         n == Len(stmts)
+         obs == Rec[l].graph
+         hasFailed == \E i \in 1..n : sres[i].out # "rows"
+         RECURSIVE run(_, _, _)
+         run(i, g, own) ==
+           IF i > n THEN [ok |-> TRUE, g |-> g]
+           ELSE IF sres[i].out # "rows" THEN run(i + 1, g, own)
+           ELSE IF stmts[i].meta.noref THEN [ok |-> FALSE, g |-> g]
+           ELSE LET o == IF own THEN ApplyStmt(g, stmts[i].meta.ast) ELSE ApplyStmtSplit(gr, g, stmts[i].meta.ast)
+                IN IF o.ok THEN run(i + 1, o.g, own) ELSE [ok |-> FALSE, g |-> g]
+         pred == run(1, gr, TRUE)
+         committed == Rec[l].end = "commit" /\ IsRows
+         expected == IF committed THEN pred.g ELSE gr
+         sizes(G) == <<Len(G.nodes), Len(LiveRelSeq(G))>>
+     IN IF ~pred.ok THEN TRUE        \* a statement the reference cannot predict succeeded: not judged
+        ELSE LET d == GraphDiff(expected, obs) IN
+             IF d = "" THEN TRUE
+             ELSE Emit(Finding(Meta.prop, d,
+                    [cause |-> LET alt == run(1, gr, FALSE) IN
+                               IF committed /\ alt.ok /\ GraphDiff(alt.g, obs) = ""
+                               THEN "statements-read-the-committed-snapshot"
+                               ELSE IF committed /\ hasFailed THEN "a-failed-statement-is-part-of-the-commit"
+                               ELSE "none",
+                     before |-> sizes(gr), predicted |-> sizes(expected), observed |-> sizes(obs),
+                     outcomes |-> [i \in 1..n |-> sres[i].out], end |-> Rec[l].end,
+                     script |-> [i \in 1..n |-> stmts[i].query]]))
+  /\ gr' = Rec[l].graph
+  /\ l' = l + 1 /\ UNCHANGED <<ovf, ixpre, firstlab>>
+
 TOtherCase ==
   /\ l <= Len(Rec) /\ Rec[l].ev = "case"
-  /\ Rec[l].kind \notin {"truth3", "cmp", "arith", "order", "agg", "err", "part", "read", "idx", "write", "admin", "lim", "upd"}
+  /\ Rec[l].kind \notin {"truth3", "cmp", "arith", "order", "agg", "err", "part", "read", "idx", "write", "admin", "lim", "upd", "txn"}
   /\ l' = l + 1 /\ UNCHANGED <<ovf, gr, ixpre, firstlab>>
 
-Next == TSession \/ TRead \/ TWrite \/ TLim \/ TUpd \/ TTruth3 \/ TCmp \/ TArith \/ TOrder \/ TAgg \/ TErr \/ TPart \/ TOtherCase
+Next == TSession \/ TRead \/ TWrite \/ TLim \/ TUpd \/ TTxn \/ TTruth3 \/ TCmp \/ TArith \/ TOrder \/ TAgg \/ TErr \/ TPart \/ TOtherCase
 Spec == Init /\ [][Next]_vars
 
 TraceAccepted ==
